@@ -7,6 +7,10 @@ import (
 	"bytes"
 	"context"
 	"fmt"
+	"os"
+	"path/filepath"
+	"reflect"
+	"regexp"
 	"runtime"
 	"strings"
 	"sync"
@@ -14,9 +18,11 @@ import (
 	"unicode/utf8"
 
 	"verif/ref/htmltok"
+	"verif/tgen"
 	"verif/vlib"
 
 	"github.com/a-h/templ"
+	templparser "github.com/a-h/templ/parser/v2"
 	templruntime "github.com/a-h/templ/runtime"
 )
 
@@ -194,6 +200,48 @@ func (k *sink) compare(s, html string) string {
 	return ""
 }
 
+// crossCheckSinkKinds: every attribute kind the parser's types.go declares must occur in the harness
+// templates, so that a NEW kind of dynamic attribute without a sink here fails loudly instead of being skipped.
+func crossCheckSinkKinds() {
+	repo := os.Getenv("VERIF_REPO")
+	if repo == "" {
+		repo = "/repo"
+	}
+	b, err := os.ReadFile(filepath.Join(repo, "parser/v2/types.go"))
+	if err != nil {
+		vlib.Fatal("%v", err)
+	}
+	declared := map[string]bool{}
+	for _, m := range regexp.MustCompile(`(?m)^type (\w*Attributes?) struct`).FindAllStringSubmatch(string(b), -1) {
+		declared[m[1]] = true
+	}
+	src, err := os.ReadFile("t.templ")
+	if err != nil {
+		// the child runs in its scratch module directory
+		if exe, e2 := os.Executable(); e2 == nil {
+			src, err = os.ReadFile(filepath.Join(filepath.Dir(exe), "child", "t.templ"))
+		}
+	}
+	if err != nil {
+		vlib.Fatal("cannot read the harness templates: %v", err)
+	}
+	tf, err := templparser.ParseString(string(src))
+	if err != nil {
+		vlib.Fatal("%v", err)
+	}
+	used := map[string]bool{}
+	tgen.WalkAttrs(tf, func(a templparser.Attribute) { used[reflect.TypeOf(a).Name()] = true })
+	for k := range declared {
+		if !used[k] {
+			vlib.Fatal("parser/v2/types.go declares attribute kind %s but no sink of the C01 harness uses it: add a sink", k)
+		}
+	}
+	if len(declared) < 6 {
+		vlib.Fatal("only %d attribute kinds found in types.go: the cross-check is not looking at the right thing", len(declared))
+	}
+	run.Cov["attribute_kinds_cross_checked"] = len(declared)
+}
+
 func tokDesc(act []htmltok.Token, i int) string {
 	if i >= len(act) {
 		return "end of output"
@@ -254,6 +302,7 @@ func main() {
 			vlib.Fatal("sink %s: benign render does not match itself: %s", k.name, pr)
 		}
 	}
+	crossCheckSinkKinds()
 	alpha := []string{"<", ">", "&", "\"", "'", "/", "=", " ", "a", ";", "#", "x", "-", "!", "`", "\x00", "\r", "\n", "\t", "\x80", "é", "\xf0\x9f"}
 	maxLen := run.Pick(3, 4)
 	var strs []string
